@@ -59,6 +59,8 @@
 
 mod json;
 mod literal;
+#[cfg(feature = "kahflane_turdb_verif")]
+pub use literal::verif_hooks as literal_verif_hooks;
 
 pub use json::{
     parse_json, parse_json_path, JsonNavigator, JsonParseResult, JsonToken, JsonTokenizer,
